@@ -34,12 +34,10 @@ def splitOn (s : String) (sep : String) : List String := s.splitOn sep
 
 def words (s : String) : List String := (s.splitOn " ").filter (· ≠ "")
 
-/-- `k=v` tokens → lookup -/
+/-- `k=v` tokens → lookup (the value may itself contain `=`) -/
 def kv (toks : List String) (k : String) : Option String :=
   toks.findSome? fun t =>
-    match t.splitOn "=" with
-    | [a, b] => if a = k then some b else none
-    | _ => none
+    if t.startsWith (k ++ "=") then some ((t.drop (k.length + 1)).toString) else none
 
 def natList (s : String) (sep : String := ",") : Option (List Nat) :=
   if s = "-" ∨ s = "" then some [] else (s.splitOn sep).mapM (·.toNat?)
